@@ -195,10 +195,11 @@ fn loop_scenario(case: &loopdrv::LoopCase, prop: Option<&str>) {
     live::reset();
     let out = loopdrv::run_case(case);
     TRANSITIONS.fetch_add(out.events.len() as u64, SeqCst);
-    if out.panic.as_deref().map_or(false, |m| m.contains(divan_verif_rt::clock::HORIZON_PANIC)) {
+    if out.horizon {
         panic!("machinery: clock horizon exceeded under loom");
     }
-    let findings = oracle::check_loop(case, &out);
+    let mut findings = oracle::check_loop(case, &out);
+    findings.extend(oracle::check_time(case, &out));
     for f in findings {
         if prop.map_or(true, |p| p == f.prop) {
             oracle!(f.prop, f.class, "{}", f.text);
